@@ -279,6 +279,79 @@ var mutators = []mutator{
 		}
 		return true
 	}},
+	{"transit-local-src-wrong-link", func(r *vlib.Rand, sc *scenario) bool {
+		// a host (or the wrong sibling) injects a packet that is not on its first hop and claims
+		// the local AS as source: valid MAC on the local hop, external egress
+		if sc.isFirst() || sc.xover || sc.isLast() || sc.inScope == scInt {
+			return false
+		}
+		eg := sc.cfg.find(sc.travelEg(sc.currHF))
+		if eg == nil || eg.scope != scExt {
+			return false
+		}
+		eg.up = true
+		if sc.inScope == scSib && r.Bool() {
+			sc.inLink = 3 - sc.inLink
+			sc.cfg.ifs = append(sc.cfg.ifs, ifaceCfg{id: sc.freshIf(r), scope: scSib, lt: r.Range(0, 4), up: true, link: sc.inLink})
+		} else {
+			sc.inLink, sc.inIfID, sc.inScope = 0, 0, scInt
+		}
+		sc.srcIA = sc.cfg.ia
+		sc.rechain()
+		sc.expect = "drop"
+		return true
+	}},
+	{"currinf-peer-mismatch", func(r *vlib.Rand, sc *scenario) bool {
+		// peering path; the local AS holds a regular hop of the first segment, but CurrINF points
+		// at the (Peer-flagged) info field of the other segment, under which the hop's MAC is
+		// valid and its interfaces make sense: CurrINF does not match CurrHF, must be discarded
+		in, eg := sc.freshIf(r), uint16(0)
+		sc.cfg.ifs = append(sc.cfg.ifs, ifaceCfg{id: in, scope: scExt, lt: ltParent, up: true, link: 44})
+		eg = sc.freshIf(r)
+		sc.cfg.ifs = append(sc.cfg.ifs, ifaceCfg{id: eg, scope: scExt, lt: ltChild, up: true, link: 45})
+		mk := func(cd bool, n int) segSpec {
+			s := segSpec{consDir: cd, peer: true, beta0: uint16(r.U64()), ts: uint32(sc.now.Unix() - 50)}
+			for c := 0; c < n; c++ {
+				s.hops = append(s.hops, hopSpec{consIn: uint16(r.Range(1, 65535)), consEg: uint16(r.Range(1, 65535)), exp: 63, key: randKey(r)})
+			}
+			return s
+		}
+		sc.segs = []segSpec{mk(false, 4), mk(true, 2)}
+		sc.local, sc.currHF, sc.currINF, sc.xover, sc.postX = 1, 1, 1, false, false
+		sc.inLink, sc.inIfID, sc.inScope = 44, in, scExt
+		sc.srcIA, sc.dstIA = otherIA(r, sc.cfg.ia), otherIA(r, sc.cfg.ia)
+		sc.rechain()
+		_, h := sc.hopAt(1)
+		h.consIn, h.consEg, h.key = in, eg, sc.cfg.key // as read under the OTHER (cons-dir) info field
+		h.mac = macOf(sc.cfg.key, sc.segs[1].segID, sc.segs[1].ts, h)
+		sc.kind = "s2p/currinf-peer/ext"
+		sc.expect = "drop"
+		return true
+	}},
+	{"alert-foreign-flag-xover", func(r *vlib.Rand, sc *scenario) bool {
+		// cross-over between segments of different construction direction: on the next segment's
+		// first hop set the router-alert flag that belongs to the OTHER side of that hop (not to
+		// this router's egress): it must be left alone and the packet forwarded
+		if !sc.xover || sc.postX || sc.inScope != scExt {
+			return false
+		}
+		s0, _ := sc.hopAt(sc.currHF)
+		s1, h1 := sc.hopAt(sc.currHF + 1)
+		if s0.consDir == s1.consDir {
+			return false
+		}
+		eg := sc.cfg.find(sc.travelEg(sc.currHF + 1))
+		if eg == nil || eg.scope != scExt || !eg.up {
+			return false
+		}
+		if s1.consDir {
+			h1.inAlert = true // egress side of a cons-dir hop is the EgressRouterAlert flag
+		} else {
+			h1.egAlert = true
+		}
+		sc.expect = fmt.Sprintf("fwd %d ", eg.id)
+		return true
+	}},
 	{"wrong-sibling", func(r *vlib.Rand, sc *scenario) bool {
 		if sc.inScope != scSib {
 			return false
